@@ -244,6 +244,41 @@ CLAIMS = {
                      "crashed the VM or changed a value were guarded.",
         "technique": "Lean 4 string lemma + engine-generic purity theorem on the PEG-engine model (kernel-evaluated on the regenerated grammar) + emission-trace stream + metamorphic oracle",
     },
+    "C18": {
+        "text": "st_roundtrip (DS/Props/C18.lean): for EVERY list of plain assignments whose names are non-empty runs of name characters "
+                "and whose values are non-empty digit runs, written with any binder ('' / ':' / '=' with blanks around it) and any "
+                "separator (blanks, optional comma, blanks), the model's reader returns exactly the list — each edit once, in source "
+                "order, name and value text verbatim; the only assumption on name characters is that they are not digits, blanks, "
+                "commas or binders. Tie: st stream (the model reads the lines the implementation's callback log is produced from). "
+                "Oracle on the implementation for the full property: generated edit lists (plain / *: / *k: / &computed assignments; "
+                "+ += - -= modifications) x names {letters/CJK, ending in digits, namespaced a:b, quoted with blanks/digits/':'} x "
+                "values {ints, floats, dice under min mode, parenthesised expressions} x binders x separators; the expected callback "
+                "log is computed from the intended edits and compared entry by entry (type, verbatim name, value repr, multiplier, "
+                "operator, verbatim expression text); nothing may stay unparsed; the values handed to the callback must be copies "
+                "(re-read after the run). Four defects found this way were repaired.",
+        "note": TB + "The theorem covers the plain-assignment class with digit values; multiplier, computed and modification forms and "
+                     "non-digit values are decided by the oracle only. Spellings that are ambiguous in the language itself (a name "
+                     "starting with a dice letter directly after a value without a comma; '&' after a value, which is bitwise-and) are "
+                     "not generated.",
+        "technique": "Lean 4 round-trip theorem on a model of the st edit-list reader + differential st stream + independent expected-callback oracle",
+    },
+    "C17": {
+        "text": "Oracle on the implementation: for the structural corpus and generated programs x sets of registered parsers (regexes that "
+                "never match or can only match the empty string, stream parsers that read 0-40 runes ahead and unread half, a parser "
+                "reporting a zero-length match) x identity load/store hooks x identity detail rewriters, value, process text, "
+                "Matched/Rest, variables and final seed are identical to the run with nothing registered and no handler runs; a "
+                "matching term E<n> in 29 operand positions (parentheses, lists, calls, indexes, ternary, short-circuit, templates, "
+                "loops, functions, computed values, dice operands, st values) calls the handler once per evaluation of the operand "
+                "with exactly the matched text and groups, on each of two evaluations of the compiled program, wherever a number "
+                "would be accepted; a handler that reuses and mutates one result object shows the VM took copies. Lean: the PEG-engine "
+                "model treats the custom-dice predicate as failing without side effect when nothing is registered "
+                "(no_parser_pred_false); the engine model with that predicate is tied to the parser by the peg stream. One defect "
+                "(custom term inside look-ahead-guarded constructs) found this way was repaired.",
+        "note": TB + "PARTIAL: the matching case (PrepareCustomDice / ConsumeCustomDice / CommitCustomDice with a registered parser) is "
+                     "not yet part of the Lean engine model; it is decided by the oracle only. Regular-expression matching (Go regexp) "
+                     "and the behaviour of host-supplied stream parsers are outside any model.",
+        "technique": "metamorphic / call-log oracle on the implementation with registered parsers and identity hooks; Lean lemma on the engine model's custom-dice predicate (partial)",
+    },
 }
 
 NOT_YET = {}
